@@ -54,6 +54,10 @@ def want_lines(g, nwant):
     return ['1', 'extra line'][:nwant]
 
 
+SKIP_WORDS = ['Benchmark:', 'Script:', 'DisableDoctest:', 'DisableExample:', 'SkipDoctest:', 'Ignore:', 'Sympy:', 'BENCHMARK:', 'script:',
+              'Timings of an old machine. Benchmark:', 'ignore:  ']
+
+
 def doc_text(dl_t, g, j, doc, rot):
     """text of one docstring line of type t (without opening/closing quotes)"""
     block_indent = '    ' if doc['kind'] == 'goog' else ''
@@ -61,6 +65,10 @@ def doc_text(dl_t, g, j, doc, rot):
         return 'Some prose text %d.' % j
     if dl_t == 'blank':
         return ''
+    if dl_t == 'skiphdr':
+        # freeform parsing switches the following group of prompt lines off when the text in front of it ends with one of
+        # these words (compared in lower case)
+        return SKIP_WORDS[(rot + g + j) % len(SKIP_WORDS)]
     if dl_t == 'tag':
         return ['Example:', 'Doctest:', 'Example:', 'Examples:'][(rot + g) % 3]
     if dl_t == 'inprose':
@@ -106,7 +114,14 @@ def render(case, rot=0):
                 else:
                     out.append(ind + ' ' * (len(kw) + len(name) + 2) + 'b=2):')
             elif k == 'class':
-                out.append(ind + 'class %s(object):' % name)
+                # a module-level class may derive from an earlier module-level class (rotating): what a subclass inherits -
+                # the base's docstring, its methods - is not defined by the subclass and must not be collected for it
+                base = 'object'
+                if item['depth'] == 0 and rot % 3 != 0:
+                    earlier = [y for y in range(1, it) if items[y - 1]['k'] == 'class' and items[y - 1]['depth'] == 0]
+                    if earlier:
+                        base = item_name(items, earlier[rot % len(earlier)])
+                out.append(ind + 'class %s(%s):' % (name, base))
             elif k == 'iftrue':
                 out.append(ind + 'if True:')
             elif k == 'ifmain':
@@ -214,7 +229,7 @@ def cfg(items, moddocs, maxitems, invariants, minitems=0, maxdepth=2, deviation=
     return '\n'.join(lines)
 
 
-INVS = ['VisitIsDecl', 'UniqueNames', 'DocOpenIsGhost', 'StartIsGhost']
+INVS = ['VisitIsDecl', 'UniqueNames', 'DocOpenIsGhost', 'StartIsGhost', 'ExamplesAreDecl']
 
 
 def run_space(out, label, items, moddocs, maxitems, one_fn, sig_fn, limit=None, timeout=2400, minitems=0, maxdepth=2, fillers=None):
